@@ -268,6 +268,13 @@ func (ipv6 *IPv6) DecodeFromBytes(data []byte, df gopacket.DecodeFeedback) error
 	}
 
 	pEnd := int(ipv6.Length)
+	if ipv6.HopByHop != nil {
+		// The payload length counts the hop-by-hop header, which was stripped from Payload above.
+		pEnd -= ipv6.hbh.ActualLength
+		if pEnd < 0 {
+			return fmt.Errorf("IPv6 length %d less than hop-by-hop header length %d", ipv6.Length, ipv6.hbh.ActualLength)
+		}
+	}
 	if pEnd > len(ipv6.Payload) {
 		df.SetTruncated()
 		pEnd = len(ipv6.Payload)
